@@ -362,6 +362,7 @@ func profileFor(prop string, r *sim.Rand, i int, quick bool) sim.Profile {
 	case "C01", "C02", "C04", "C05", "C06", "C07", "C09":
 		// genesis states as exported from a running chain: validators in jail, validators that are unstaking
 		p.RichGenesis = i%8 == 4
+		p.ImpliedSupply = (prop == "C01" || prop == "C02") && i%8 == 5
 		p.ExportedGenesis = i%16 == 12
 	}
 	switch prop {
@@ -372,13 +373,16 @@ func profileFor(prop string, r *sim.Rand, i int, quick bool) sim.Profile {
 		}
 		p.EdgeAddresses = i%4 == 2
 		p.SecpValidators = (prop == "C05" && i%4 == 3) || (prop == "C09" && i%8 == 7)
+		if prop == "C07" || prop == "C09" {
+			p.NearOldEvPct = 10
+		}
 		if (prop == "C07" || prop == "C06" || prop == "C05") && i%8 == 2 && p.CustomPos {
 			p.Pos.UnstakingTime = time.Duration([]int64{0, 1}[i/8%2]) * time.Second // no (or almost no) unstaking period
 		}
 		if (prop == "C07" || prop == "C09") && i%8 == 6 {
 			p.FatalEvPct = 25 // some evidence the application cannot handle (unknown key, too old, tombstoned, unstaked offender)
-			p.OldEvPct = 30   // ... among it evidence just beyond the maximum age (by seconds, or by a nanosecond)
-			p.EvidencePct = 14
+			p.OldEvPct = 50   // ... among it evidence just beyond the maximum age (by seconds, or by a nanosecond)
+			p.EvidencePct = 22
 		}
 		p.UnstakingTimeChanges = prop == "C06" && i%8 == 0
 		if p.UnstakingTimeChanges {
